@@ -37,6 +37,7 @@ class DT:
     signed: bool
     bits: Optional[int]
     floating: bool
+    np_itemsize: Optional[int] = None   # bytes per element of the numpy storage type (sub-byte types are stored in one byte)
 
     def __int__(self) -> int:
         return self.code
@@ -254,6 +255,10 @@ class Evaluator:
                     return base.name
                 if e.attr == "value":
                     return base.code
+                if e.attr == "itemsize":
+                    if base.bits is None:
+                        raise EvalRaise("TypeError")
+                    return base.bits / 8
             raise Unsupported(f"attribute {e.attr}")
         if isinstance(e, ast.Tuple):
             return tuple(self.eval(x, env, fi, depth) for x in e.elts)
@@ -441,6 +446,10 @@ class Evaluator:
                         return recv.signed
                     if m == "is_floating_point":
                         return recv.floating
+                    if m == "numpy":
+                        if recv.np_itemsize is None:
+                            raise EvalRaise("TypeError")
+                        return Obj("numpy.dtype", name=recv.name.lower(), itemsize=recv.np_itemsize)
                     raise Unsupported(f"DataType method {m}")
                 if isinstance(recv, list) and m in ("append", "extend", "insert", "pop", "index", "count"):
                     try:
@@ -456,6 +465,8 @@ class Evaluator:
                     except Exception:
                         raise EvalRaise("TypeError")
                 raise Unsupported(f"method {m}")
+        if cn in ("np.dtype", "numpy.dtype") and len(args) == 1 and isinstance(args[0], Obj) and args[0].kind == "numpy.dtype":
+            return args[0]
         g = self.idx.resolve_func(fi.module, cn, cls=fi.cls, scope=fi) if cn else None
         if g is not None:
             return self.call(g, args, kwargs, depth + 1)
@@ -473,5 +484,10 @@ def library_dtypes() -> Dict[str, DT]:
             bits: Optional[int] = int(d.bitwidth)
         except Exception:
             bits = None
-        out[d.name] = DT(d.name, int(d), integer, bool(d.is_signed()) if integer else False, bits, bool(d.is_floating_point()))
+        try:
+            import numpy as _np
+            npsz: Optional[int] = int(_np.dtype(d.numpy()).itemsize)
+        except Exception:
+            npsz = None
+        out[d.name] = DT(d.name, int(d), integer, bool(d.is_signed()) if integer else False, bits, bool(d.is_floating_point()), npsz)
     return out
